@@ -360,6 +360,24 @@ def opAddParent (args : String) : String :=
       | _ => ps) []
   " ".intercalate (res.map fun n => undash n.frame ++ "~" ++ undash n.cls ++ "~" ++ (if n.isInclude then "1" else "0") ++ "~" ++ (if n.isExtend then "1" else "0"))
 
+/-- ancestor <caller> <defined> | edges -/
+def opAncestor (args : String) : String :=
+  let parts := args.splitOn " | "
+  let node := fun (f : String) => match f.splitOn "~" with
+    | [fr, c, inc, ext] => ({ frame := dashS fr, cls := dashS c, isInclude := inc == "1", isExtend := ext == "1" } : Inherit.Node)
+    | _ => {}
+  let es := (parts.getD 1 "")
+  let g : Inherit.Inh := ((es.trimAscii.toString.splitOn ";").filter (· != "")).foldl (fun g e =>
+    match e.splitOn "~" with
+    | [cf, cc, pf, pc, inc, ext] =>
+      let k := (dashS cf, dashS cc)
+      let n : Inherit.Node := { frame := dashS pf, cls := dashS pc, isInclude := inc == "1", isExtend := ext == "1" }
+      Frame.insert g k ((Frame.lookup g k).getD [] ++ [n])
+    | _ => g) []
+  match (parts.getD 0 "").splitOn " " |>.filter (· != "") with
+  | [a, b] => if Inherit.protectedOk (es.length + 4) g (node a) (node b) then "1" else "0"
+  | _ => "BAD-ARGS"
+
 def opNarrow (args : String) : String :=
   match args.splitOn " | " with
   | [kind, decls, steps] =>
@@ -511,6 +529,7 @@ def dispatch (line : String) : String :=
   else if name == "suggest" then opSuggest args
   else if name == "lookup" then opLookup args
   else if name == "addparent" then opAddParent args
+  else if name == "ancestor" then opAncestor args
   else if name == "match" then opMatch args
   else if name == "bind" then opBind args
   else if name == "prop" then opProp args
